@@ -6,6 +6,7 @@ from core import Driver
 from gen import header
 
 LEVEL_NOTE = [
+    "C03.line_comment_e2e / block_comment_e2e / comment_len_sound: CheckCommentLineLen is ported completely (Model/Checks.lean commentLenDiags); for every rule table a `//` comment ending beyond column 80 and every line of a block comment wider than 80 columns is reported (at line + i, column 1), and nothing else; tie: `always` stream (PORTED in harness/alwayscorr.py)",
     "theorems C03.linelen_iff / linelen_nodup / newline_column / code_line_reported_iff / line_comment_iff / block_comment_iff / counters_exact are about Model/Limits.lean (the decision points of CheckLineLen, CheckCommentLineLen, CheckBrace, CheckFunctionsCount, CheckFuncDeclaration, CheckVariableDeclaration) and the position spec: the NEWLINE token ending a line of visual width w is at column w+1 (from C09/C19), so a code line ending in a newline is reported iff w > 80; CheckLineLen is in the `_rule` list (obligation on the regenerated registry) and every token is in exactly one statement (C07)",
     "end to end (C03.linelen_e2e / linelen_source / long_line_reported / short_lines_silent): for EVERY rule table, on every file that reaches a verdict, the lines CheckLineLen reports are exactly the lines holding a token whose first character is at a visual column beyond 81; a code line wider than 80 columns that ends in a newline token is reported wherever it is. Tie: `always` stream — source text -> model lexer -> engine loop replaying the observed rule decisions -> model CheckLineLen, compared with what the real CheckLineLen emitted",
     "tie: `linelen` / `commentlen` snapshot correspondences (every real call of the two rules is replayed through the model) + the boundary oracle below (each limit at L-3..L+6 in generated contexts)",
